@@ -160,3 +160,80 @@ Proof.
   assert (Z.of_nat i <= Z.of_nat n - 1) by lia.
   destruct (Z.eq_dec inc 0) as [->|Hne]; [lia|]. nia.
 Qed.
+
+(* ---- where each sample's bytes are read from ---- *)
+(* the samples of one chunk lie back to back in the file, starting at `off` *)
+Fixpoint contig (off : Z) (ss : list sample) : Prop :=
+  match ss with
+  | [] => True
+  | s :: t => sm_off s = off /\ contig (u64 (off + sm_size s)) t
+  end.
+
+Lemma chunk_samples_contig tb spc : forall fuel n offset cu ss cu',
+  chunk_samples fuel tb n spc offset cu = Ok (ss, cu') ->
+  contig offset ss /\ Z.of_nat (length ss) <= Z.max 0 (spc - n).
+Proof.
+  induction fuel as [|f IH]; intros n offset cu ss cu' H; cbn [chunk_samples] in H; [discriminate|].
+  destruct ((n <? spc) && (cu_sample cu <=? t_nsamples tb)) eqn:Hc.
+  2:{ inversion H; subst. cbn. split; [exact I|lia]. }
+  apply andb_true_iff in Hc. destruct Hc as [Hn _]. apply Z.ltb_lt in Hn.
+  destruct (stts_next _ _ _ _) as [[[[dur left'] rest'] delta']|]; [|discriminate].
+  match type of H with bind ?x _ = _ => destruct x as [size| | |] eqn:Es end; cbn [bind] in H; try discriminate.
+  match type of H with bind ?x _ = _ => destruct x as [[ss2 cu2]| | |] eqn:E2 end; cbn [bind] in H; try discriminate.
+  inversion H; subst. apply IH in E2. destruct E2 as [C1 C2]. cbn [contig sm_off sm_size length]. split; [split; [reflexivity|exact C1]|lia].
+Qed.
+
+(* a walk result as a list of (chunk number, the samples read from that chunk) *)
+Definition chunk_ok (tb : tables) (c : Z) : Prop := 1 <= c <= Z.of_nat (length (t_offsets tb)).
+Definition chunk_off (tb : tables) (c : Z) : Z := nth (Z.to_nat (c - 1)) (t_offsets tb) 0.
+Definition placed (tb : tables) (spc : Z) (cr : Z * list sample) : Prop :=
+  chunk_ok tb (fst cr) /\ contig (chunk_off tb (fst cr)) (snd cr) /\ Z.of_nat (length (snd cr)) <= Z.max 0 spc.
+
+Lemma entry_chunks_placed tb spc last : forall fuel chunk cu ss cu',
+  0 <= chunk ->
+  entry_chunks fuel tb chunk last spc cu = Ok (ss, cu') ->
+  exists crs, ss = concat (map snd crs) /\ Forall (placed tb spc) crs.
+Proof.
+  induction fuel as [|f IH]; intros chunk cu ss cu' H0 H; cbn [entry_chunks] in H; [discriminate|].
+  destruct ((chunk <=? last) && (cu_sample cu <=? t_nsamples tb)); [|inversion H; subst; exists []; split; [reflexivity|constructor]].
+  destruct ((chunk =? 0) || (Z.of_nat (length (t_offsets tb)) <? chunk)) eqn:Hb; [discriminate|].
+  apply orb_false_iff in Hb. destruct Hb as [Hb1 Hb2]. apply Z.eqb_neq in Hb1. apply Z.ltb_ge in Hb2.
+  match type of H with bind ?x _ = _ => destruct x as [[ss1 cu1]| | |] eqn:E1 end; cbn [bind] in H; try discriminate.
+  match type of H with bind ?x _ = _ => destruct x as [[ss2 cu2]| | |] eqn:E2 end; cbn [bind] in H; try discriminate.
+  inversion H; subst.
+  assert (Hu : 0 <= u32 (chunk + 1)) by (unfold u32; apply Z.mod_pos_bound; lia).
+  destruct (IH _ _ _ _ Hu E2) as [crs [A1 A2]]. apply chunk_samples_contig in E1. destruct E1 as [C1 C2].
+  exists ((chunk, ss1) :: crs). split; [cbn [map concat snd]; rewrite A1; reflexivity|].
+  constructor; [|exact A2]. unfold placed, chunk_ok, chunk_off. cbn [fst snd].
+  split; [lia|]. split; [exact C1|lia].
+Qed.
+
+Lemma entries_placed tb : forall es cu ss,
+  Forall (fun e => 0 <= fst e) es ->
+  entries tb es cu = Ok ss ->
+  exists crs, ss = concat (map snd crs) /\
+              Forall (fun cr => chunk_ok tb (fst cr) /\ contig (chunk_off tb (fst cr)) (snd cr)) crs.
+Proof.
+  induction es as [|[first spc] rest IH]; intros cu ss Hf H; cbn [entries] in H.
+  - inversion H; subst. exists []. split; [reflexivity|constructor].
+  - inversion Hf as [|? ? Hfirst Hrest]; subst. cbn [fst] in Hfirst.
+    match type of H with bind ?x _ = _ => destruct x as [[ss1 cu1]| | |] eqn:E1 end; cbn [bind] in H; try discriminate.
+    match type of H with bind ?x _ = _ => destruct x as [ss2| | |] eqn:E2 end; cbn [bind] in H; try discriminate.
+    inversion H; subst. destruct (entry_chunks_placed _ _ _ _ _ _ _ _ Hfirst E1) as [c1 [A1 A2]].
+    destruct (IH _ _ Hrest E2) as [c2 [B1 B2]].
+    exists (c1 ++ c2). split; [rewrite map_app, concat_app, A1, B1; reflexivity|].
+    apply Forall_app. split; [|exact B2]. eapply Forall_impl; [|exact A2]. intros cr [P1 [P2 _]]. split; assumption.
+Qed.
+
+(* Whenever the walk succeeds, every sample is read from a chunk that exists, and the samples
+   taken from one chunk lie back to back starting at that chunk's offset. *)
+Theorem samples_placed tb ss :
+  Forall (fun e => 0 <= fst e) (t_stsc tb) ->
+  samples_of tb = Ok ss ->
+  exists crs, ss = concat (map snd crs) /\
+              Forall (fun cr => chunk_ok tb (fst cr) /\ contig (chunk_off tb (fst cr)) (snd cr)) crs.
+Proof.
+  intros Hf. unfold samples_of.
+  match goal with |- bind ?x _ = _ -> _ => destruct x as [ss0| | |] eqn:E end; cbn [bind]; try discriminate.
+  destruct (_ <? _); [discriminate|]. intros H; inversion H; subst. eapply entries_placed; eassumption.
+Qed.
